@@ -102,6 +102,35 @@ def execute(ob):
     return line
 
 
+def blind_job(ob):
+    """The loop of a massive quark on a light-quark line knows the quark only through its mass (Theorems.C09_MissingIsFlavourBlind):
+    D_b(M) = light(mc=M/2, mb=M) - light(mc=M/2, mb=huge)  [the bottom loop at mass M]  equals
+    D_c(M) = light(mc=M, mb=huge) - light(mc=huge', mb=huge)  [the charm loop at mass M],
+    both non-zero above the pair threshold of M and both zero at and below it (FFNS, NfFF=3, O(a_s^2))."""
+    cards.silence()
+    x, q2, m2 = (float(common.frac(ob[k])) for k in ("x", "Q2", "m2"))
+    M = math.sqrt(m2)
+    xg = cards.make_grid(GRID["n_low"], GRID["n_mid"], x_min=GRID["x_min"])
+    line = dict(oid=ob["oid"], proc="blind", x=ob["x"], Q2=ob["Q2"], m2=ob["m2"], hq=5, nfff=3, chi=ob["x"], kind=ob["kind"], outcome="OK",
+                all_zero=False, light_unchanged=True, delta_milli=0, partonic_ok=True, note="")
+    name = f"{ob['kind']}_light"
+
+    def light(mc, mb):
+        th = cards.theory(PTO=2, PTODIS=2, FNS="FFNS", NfFF=3, mc=mc, mb=mb, mt=2.0e4, Q0=1.0)
+        return cards.run(th, cards.obs({name: [dict(x=x, Q2=q2)]}, xgrid=xg, deg=3, prDIS="NC"))[name][0].orders[(2, 0, 0, 0)][0]
+    try:
+        d_b = light(0.5 * M, M) - light(0.5 * M, 2.0e3)
+        d_c = light(M, 2.0e3) - light(1.0e3, 2.0e3)
+        scale = max(float(np.abs(d_c).max()), float(np.abs(d_b).max()))
+        line["all_zero"] = bool(scale == 0.0)
+        line["delta_milli"] = common.milli(float(np.abs(d_b - d_c).max()), 1e-10 * scale) if scale > 0 else 0
+        line["note"] = f"bottom loop at mass M: max {np.abs(d_b).max():.3e}; charm loop at mass M: max {np.abs(d_c).max():.3e}; difference {np.abs(d_b - d_c).max():.3e}"
+    except Exception as ex:
+        line["outcome"] = ("Reject_" if isinstance(ex, (ValueError, NotImplementedError)) else "Crash_") + type(ex).__name__
+        line["note"] = str(ex)[:200]
+    return line
+
+
 def run(ctx):
     ctx.cov["rule"] = ("lattice points (x, Q2, m2) enumerated by TLC with their class relative to the threshold (incl. points exactly "
                        "on it), plus Q2 one ulp below every exact-threshold point; non-trivial = point within a factor 3 of the threshold")
@@ -120,12 +149,26 @@ def run(ctx):
             u["oid"] = o["oid"] + "-ulp"
             todo.append(u)
     lines = ctx.pmap(execute, todo, chunksize=1)
+    # the 'missing' channel of the SECOND massive quark (bottom with NfFF = 3) against the one of the first at the same mass
+    from .. import relcheck
+    relcheck.mc(ctx, ["Inv_C09_Blind"], consts=dict(NFZM=set(), NFFF={3, 4}, KINDS={"F2", "FL", "F3", "g1"}, PROCS={"EM", "NC"},
+                                                    FLAVS={"light", "total"}), subst=dict(ORDERS="ORD_few"), min_states=50)
+    bl = []
+    for o in obls:
+        if o["proc"] == "NC" and o["hq"] == 5 and o["nfff"] == 3 and (not ctx.quick or float(common.frac(o["x"])) in (0.25, 0.5)):
+            for kind in ("F2", "FL"):
+                b = dict(o, kind=kind)
+                b["oid"] = common.oid_of("C09", dict(blind=1, kind=kind, x=o["x"], Q2=o["Q2"], m2=o["m2"]))
+                bl.append(b)
+    todo = todo + bl
+    lines = lines + ctx.pmap(blind_job, bl, chunksize=1)
     for o, ln in zip(todo, lines):
         ctx.count(1, nontrivial_key=ln["oid"] if o["cls"] == "at" or o.get("ulp") or o["proc"] == "CC" else None)
     for ln in lines[:: max(1, len(lines) // 3)][:3]:
         ctx.sample({k: ln[k] for k in ("proc", "x", "Q2", "m2", "hq", "chi", "all_zero", "light_unchanged", "delta_milli")})
-    bad = ctx.tlc_validate("Trace_C09", "Trace.cfg", [{k: v for k, v in ln.items() if k != "note"} for ln in lines])
-    ctx.selftest("Trace_C09", "Trace.cfg", [{k: v for k, v in ln.items() if k not in ('note',)} for ln in lines if ln["oid"] not in bad and (True)], [
+    bad = ctx.tlc_validate("Trace_C09", "Trace.cfg", [{k: v for k, v in ln.items() if k not in ("note", "kind")} for ln in lines])
+    ctx.selftest("Trace_C09", "Trace.cfg", [{k: v for k, v in ln.items() if k not in ('note', 'kind')} for ln in lines if ln["oid"] not in bad and (True)], [
+        ("blind", lambda l: dict(l, delta_milli=7000) if l["proc"] == "blind" and not l["all_zero"] else None),
         ("all_zero", lambda l: dict(l, all_zero=not l["all_zero"])),
         ("outcome", lambda l: dict(l, outcome="Crash_ZeroDivisionError")),
         ("delta", lambda l: dict(l, delta_milli=5000) if l["proc"] == "CC" and not l["all_zero"] else None),
@@ -134,7 +177,7 @@ def run(ctx):
     by = {ln["oid"]: (o, ln) for o, ln in zip(todo, lines)}
     for oid, clause in bad.items():
         o, ln = by[oid]
-        key = f"{o['proc']}:hq{o['hq']}.NfFF{o['nfff']}:x{o['x'][0]}/{o['x'][1]}:Q2_{o['Q2'][0]}/{o['Q2'][1]}{'-ulp' if o.get('ulp') else ''}:{clause}"
+        key = f"{ln['proc'] if ln['proc'] == 'blind' else o['proc']}{':' + o['kind'] if ln['proc'] == 'blind' else ''}:hq{o['hq']}.NfFF{o['nfff']}:x{o['x'][0]}/{o['x'][1]}:Q2_{o['Q2'][0]}/{o['Q2'][1]}{'-ulp' if o.get('ulp') else ''}:{clause}"
         ctx.violation(key, f"{o['proc']} heavy quark {o['hq']} at x={o['x']}, Q2={o['Q2']}{' (one ulp below)' if o.get('ulp') else ''}, "
                       f"m2={o['m2']} [{o['cls']}]: {clause} {ln['note']}", dict(kind="C09", obligation=o))
 
